@@ -3,7 +3,7 @@
    [ident c name ns j] says: j.apiVersion = c_version c, j.kind = c_kind c,
    j.metadata.name = name and, when apiConfig yields a namespace n,
    j.metadata.namespace = n. *)
-From Koreo Require Import Json Payload ResourceFn ResourceFn_proofs Identity_proofs.
+From Koreo Require Import Json Payload ResourceFn ResourceFn_proofs Identity_proofs RfFaults RfFaults_proofs.
 Local Open Scope list_scope.
 
 (* "Every object a ResourceFunction creates or patches carries exactly the
@@ -30,6 +30,40 @@ Theorem C06_identity_pinned : forall s name ns,
       (c_plural (s_cfg s) = Some pl \/ c_plural (s_cfg s) = None /\ s_lookup s = Some pl)
   end.
 Proof. exact krm_identity. Qed.
+
+(* ... and under EVERY answer of the API to the read and to the write (model/RfFaults.v: the read
+   may say "not found" although the object is there, the read or the write may fail): every call
+   that is made still carries / addresses the apiConfig identity.  [seen s ag] is the scenario as
+   the code sees it after the read. *)
+Theorem C06f_identity_pinned_under_faults : forall s name ns ag am,
+  s_name s = NameOk name ns ->
+  forall c, In c (calls_f s ag am) ->
+  match c with
+  | CPost pl nsx p =>
+      ident (s_cfg s) name ns (body p) /\ nsx = call_ns (s_cfg s) (body p) /\
+      (c_plural (s_cfg s) = Some pl \/ c_plural (s_cfg s) = None /\ s_lookup s = Some pl)
+  | CPatch pl nsx nm p =>
+      ident (s_cfg s) name ns (body p) /\ nm = name /\
+      (forall live, s_live (seen s ag) = Some live -> nsx = call_ns (s_cfg s) live) /\
+      (c_plural (s_cfg s) = Some pl \/ c_plural (s_cfg s) = None /\ s_lookup s = Some pl)
+  | CGet pl nsx nm | CDelete pl nsx nm =>
+      nm = name /\
+      (c_plural (s_cfg s) = Some pl \/ c_plural (s_cfg s) = None /\ s_lookup s = Some pl)
+  end.
+Proof.
+  intros s name ns ag am Hn c Hc.
+  assert (Hseen : s_name (seen s ag) = NameOk name ns) by (destruct ag; exact Hn).
+  assert (Hcfg : s_cfg (seen s ag) = s_cfg s) by (destruct ag; reflexivity).
+  assert (Hlk : s_lookup (seen s ag) = s_lookup s) by (destruct ag; reflexivity).
+  destruct (calls_f_incl s ag am c Hc) as [H|H].
+  - pose proof (krm_identity s name ns Hn c H) as K.
+    destruct c as [pl nsx nm|pl nsx p|pl nsx nm p|pl nsx nm]; try exact K.
+    (* a PATCH is only ever made by the pass on the scenario as seen *)
+    destruct K as [K1 [K2 [K3 K4]]]. split; [exact K1|]. split; [exact K2|]. split; [|exact K4].
+    intros live Hl. destruct ag; cbn [seen] in Hl; try (apply K3; exact Hl). discriminate Hl.
+  - pose proof (krm_identity (seen s ag) name ns Hseen c H) as K.
+    rewrite Hcfg, Hlk in K. exact K.
+Qed.
 
 (* for a namespaced kind the POST is addressed to the apiConfig namespace *)
 Theorem C06_post_namespace : forall c name n j,
@@ -76,3 +110,4 @@ Print Assumptions C06_identity_pinned.
 Print Assumptions C06_post_namespace.
 Print Assumptions C06_forced_overlay_pins.
 Print Assumptions C06_no_name_no_call.
+Print Assumptions C06f_identity_pinned_under_faults.
